@@ -234,9 +234,9 @@ class FilePart(Part):
         for B in Bs:
             for pi, pref in enumerate([None, ["10.0.0.0/8", "12.0.0.0/6"]]):
                 for ni, nets in enumerate([None, ["10.1.0.0/16", "200.1.2.3/32"], "private"]):
-                    for salt in (["saltForTest", "seed%d" % self.seed, "sält"]
+                    for salt in (["saltForTest", "seed%d" % self.seed, "sält", "", " "]
                                  if self.tier == "thorough" else
-                                 ["saltForTest", "seed%d" % self.seed]):
+                                 ["saltForTest", "seed%d" % self.seed] + ([""] if (B + pi + ni) % 3 == 0 else [])):
                         out.append({"B": B, "prefixes": pref, "networks": nets, "salt": salt})
         return out
 
